@@ -19,4 +19,18 @@ CHECKS = {
         "padding bits, and refuse foreign symbols/wrong lengths; integer codecs for all values of each width; b64s/ab64/b32 wrappers.",
    note="Trusted: z3; reference models in refs/b64ref.py (validated against CPython base64 and published hash64 vectors on every run); "
         "stdlib binascii/base64 replaced by those models. Outside: lengths above the bound (quick 48 / thorough 200 bytes)."),
+ "C13": dict(engine="E1-zshadow", category="other", design_ref="DESIGN.md §4 C13",
+   technique="symbolic execution of the real token generator on an arbitrary digest + z3 validity vs RFC 4226/6238",
+   text="For all digest contents (20/32/64 bytes) z3 shows the value the real _generate renders is RFC 4226's dynamic truncation and "
+        "the token is its last N decimal digits zero padded (N=6..10); for all times up to 2^41 and periods 1..3600 the counter and "
+        "validity interval follow floor(t/period); for all key contents decorated base32/hex text denotes the same key.",
+   note="Trusted: z3; printf/regex/base16/base32/struct models (each validated against CPython per run). The HMAC is an arbitrary "
+        "function here (its correctness is C11). Outside: datetime/float conversions beyond an enumerated list."),
+ "C14": dict(engine="E1-zshadow", category="other", design_ref="DESIGN.md §4 C14",
+   technique="exhaustive path exploration of the real match() over symbolic integers + z3 entailment of the window specification",
+   text="All feasible paths of the real TOTP.match/_find_match for symbolic time, window, skew, last counter, period and matching "
+        "counter(s) are explored; z3 proves each outcome (accepted/used/invalid, earliest match first, strictly increasing accepted "
+        "counters, TotpMatch fields) is the one the statement requires, and that the paths cover the bound.",
+   note="Trusted: z3; token generation replaced by 'matches iff counter in a symbolic set'. Bounds: quick time<=1e6, window<=40, "
+        "period<=30; thorough time<=2^40, window<=120, period<=3600. Outside: text-token regex cleaning beyond enumerated forms."),
 }
